@@ -3,6 +3,7 @@ injection at every outgoing message position (C15), the query battery (C16 / C14
 from collections import Counter
 
 from .monitors import PAYOUT_KINDS, Ctx, bmap, gb_counter, holdings, lmap, wallets
+from .names import INVALID_ADDRS
 from .msgs import E
 
 NANOS = 10 ** 9
@@ -99,6 +100,8 @@ def check_queries(sess, ctx, q, i, all_pages=None):
             if p == 0:
                 continue
             if "ok" not in r:
+                if owner in INVALID_ADDRS:
+                    continue  # an unparsable owner address is refused, as it must be (the correspondence compares that)
                 ctx.add("C16", "page_not_answered", i, "page %d of %s's %s failed: %s" % (p, owner, "listings" if kind == "l" else "buckets", list(r.values())[0][-80:]))
                 continue
             exp = recs[20 * (p - 1):20 * p]
@@ -138,7 +141,8 @@ def check_queries(sess, ctx, q, i, all_pages=None):
             ctx.add("C16", "market_incomplete", i, "market pages list %r, purchasable are %r" % (got, want))
     for e in q["whitelist"]:
         if "ok" not in e["r"]:
-            ctx.add("C16", "page_not_answered", i, "whitelist query for %s failed" % e["owner"])
+            if e["owner"] not in INVALID_ADDRS:
+                ctx.add("C16", "page_not_answered", i, "whitelist query for %s failed" % e["owner"])
             continue
         want = sorted(int(l["id"]) for l in o["listings"] if open_offer(o, l) and l["wl"] == e["owner"])
         got = sorted(int(l["id"]) for l in e["r"]["ok"])
